@@ -532,6 +532,23 @@ func runGwHistory(rng *rand.Rand, w *Writer, suite string, malformed bool) {
 				ents = append(ents, fmt.Sprintf("%d/%d/%d/%s/%d/%s/%s", en.tmst, en.ch, en.rfch, en.datr, en.rssi, en.lsnr, d))
 			}
 			body := `{"rxpk":[` + strings.Join(js, ",") + `]}`
+			if rng.Intn(4) == 0 {
+				// a status report in the same document as the receptions - before or after them, shaped as the reference
+				// forwarder writes it or otherwise (an array, fractional or quoted numbers, null, a bare number, further
+				// members): the server has no use for it and the receptions are handed on whatever it looks like
+				stat := []string{
+					`{"time":"2014-01-12 08:59:28 GMT","lati":46.24,"long":3.2523,"alti":145,"rxnb":2,"rxok":2,"rxfw":2,"ackr":100.0,"dwnb":2,"txnb":2}`,
+					`[{"time":"2014-01-12 08:59:28 GMT","rxnb":2,"rxok":2,"rxfw":2,"ackr":100.0,"dwnb":2,"txnb":2}]`,
+					`{"time":1389517168,"lati":"46.24","alti":145.5,"rxnb":-1,"rxok":2.5,"ackr":"100%","dwnb":null,"txnb":4294967296}`,
+					`null`, `17`, `"ok"`, `{}`, `[]`, `{"rxpk":[{"data":"AAAA"}],"temp":21.5,"pfrm":"IMST","mail":""}`,
+				}[rng.Intn(9)]
+				if rng.Intn(2) == 0 {
+					body = `{"stat":` + stat + `,"rxpk":[` + strings.Join(js, ",") + `]}`
+				} else {
+					body = `{"rxpk":[` + strings.Join(js, ",") + `],"stat":` + stat + `}`
+				}
+				w.Count("gw.push_data.stat-beside-rxpk")
+			}
 			cls := "valid"
 			opaque := false
 			if rng.Intn(10) == 0 {
